@@ -791,3 +791,66 @@ def campaign_defaults_static(ck: Check, c17, n_docs: int) -> None:
         camp.distinct.add((sdl, json.dumps(flags, sort_keys=True)))
         static_case(ck, camp, sdl, "msgspec.Struct", flags)
     camp.wall_s = time.time() - t0
+
+
+# ------------------------------------------------------------------ resolveMember vs CPython
+def campaign_resolve(ck: Check, c17, n: int) -> None:
+    """The model's reading of Python — a member comes from the class's own body, else from the FIRST base that
+    declares it — against CPython itself: plain classes (typing.get_type_hints), pydantic v2 models
+    (model_fields) and dataclasses (dataclasses.fields) built from the same member tables. This ties the
+    hypothesis-free part of C17.own_declaration_wins / undeclared_member_from_first_base to the interpreter;
+    nothing of /repo is involved."""
+    import typing
+
+    import pydantic
+
+    camp = ck.campaign("Graphql.resolveMember vs CPython (which class's declaration of a member wins: plain classes, pydantic models, dataclasses built from the same member tables)")
+    t0 = time.time()
+    rng = ck.rng.fork("resolve")
+    names = [f"f{k}" for k in range(4)]
+    cases, reqs = [], []
+    for _ in range(n):
+        n_b = rng.range(1, 3)
+        # the marker type of a declaration says where it was written: Own / B0 / B1 / B2
+        bases = [[(nm, ("n", f"B{j}")) for nm in names if rng.chance(1, 2)] for j in range(n_b)]
+        own = [(nm, ("n", "Own")) for nm in names if rng.chance(1, 3)]
+        q = rng.choice(names)
+        cases.append((bases, own, q))
+        fs = " ".join(f"({hx(a)} {c17.gt_sx(b)})" for a, b in own)
+        bs = " ".join("(" + " ".join(f"({hx(a)} {c17.gt_sx(b)})" for a, b in bf) + ")" for bf in bases)
+        reqs.append(f"gql.resolve 0 {hx('T')} ({fs}) () ({bs}) {hx(q)}")
+    markers = {m: type(m, (), {}) for m in ("Own", "B0", "B1", "B2")}
+    for (bases, own, q), rep in zip(cases, ck.driver.run(reqs)):
+        camp.evaluations += 1
+        sx = c17.parse_sx(rep)
+        if not sx or sx[0] != "ok":
+            ck.disagree(camp, {"bases": bases, "own": own, "member": q}, rep[:200], "a reply")
+            continue
+        model = None if sx[1] == "none" else c17.dt_of_sx(sx[1][3])[2]
+        camp.hit("own" if model == "Own" else "undeclared" if model is None else ("first_base" if model == "B0" else "later_base"))
+        decls = sum(1 for bf in bases if any(a == q for a, _ in bf))
+        if decls >= 2:
+            camp.distinct.add((json.dumps(bases), json.dumps(own), q))
+        for flavour in ("plain", "pydantic", "dataclass"):
+            root = (pydantic.BaseModel,) if flavour == "pydantic" else ()
+            deco = dataclasses.dataclass if flavour == "dataclass" else (lambda c: c)
+
+            def mk(name, bs, fields):
+                ns = {"__annotations__": {a: typing.Optional[markers[b[1]]] for a, b in fields}, **{a: None for a, _ in fields}}
+                if flavour == "pydantic":
+                    ns["model_config"] = pydantic.ConfigDict(arbitrary_types_allowed=True)
+                return deco(type(name, bs or root, ns))
+
+            bcls = [mk(f"B{j}", (), bf) for j, bf in enumerate(bases)]
+            t = mk("T", tuple(bcls), own)
+            if flavour == "plain":
+                ann = typing.get_type_hints(t).get(q)
+            elif flavour == "pydantic":
+                ann = t.model_fields[q].annotation if q in t.model_fields else None
+            else:
+                ann = next((f.type for f in dataclasses.fields(t) if f.name == q), None)
+            have = None if ann is None else next(a.__name__ for a in typing.get_args(ann) if a is not type(None))
+            if have != model:
+                ck.disagree(camp, {"bases": bases, "own": own, "member": q, "flavour": flavour}, model, have)
+    ck.notes["rule:" + camp.name] = "distinct (member tables, queried member) in which at least two bases declare the member"
+    camp.wall_s = time.time() - t0
